@@ -48,7 +48,9 @@ pub fn all_probes<H: HB>(prop: &str, universe: &[u32]) -> Vec<Box<dyn Probe<H>>>
     let prios: Vec<i32> = vec![0, 1, 2];
     match prop {
         "C06" => vec![Box::new(IterPrograms { which: vec![It::Sorted], extra_len: 2, sorted_vecs: true, adaptors: false })],
-        "C09" => vec![Box::new(IterMutPrograms { extra_len: 3, prios })],
+        "C09" => vec![Box::new(IterMutPrograms { extra_len: 3, prios, lite: false })],
+        "C09m" => vec![Box::new(IterMutPrograms { extra_len: 1, prios, lite: true })],
+        "C13m" => vec![Box::new(IterPrograms { which: vec![It::Iter, It::IntoIter, It::Drain, It::Sorted], extra_len: 1, sorted_vecs: false, adaptors: false })],
         "C13" => vec![Box::new(IterPrograms { which: vec![It::Iter, It::IterRef, It::IntoIter, It::Drain, It::Sorted], extra_len: 2, sorted_vecs: false, adaptors: true })],
         "C16" => vec![Box::new(EmptiedLikeFresh { universe: universe.to_vec(), prios })],
         "C11" => vec![Box::new(OfferedVsStored { universe: universe.to_vec() })],
@@ -323,7 +325,7 @@ impl IterPrograms {
                 return Err(format!("{w:?}: a full forward traversal yields {} elements of {n}", fwd.len()));
             }
             let mut progs = programs(len, back);
-            if w != It::Sorted {
+            if w != It::Sorted && self.extra_len > 1 {
                 progs.extend(nth_programs(n, back));
             }
             for prog in progs {
@@ -428,6 +430,8 @@ fn check_adaptors(out: AdOut, n: usize, cases: &mut u64) -> Result<(), String> {
 pub struct IterMutPrograms {
     pub extra_len: usize,
     pub prios: Vec<i32>,
+    /// reduced program set (Miri stage): no nth programs, no `&mut queue` variant, no adaptors
+    pub lite: bool,
 }
 
 impl IterMutPrograms {
@@ -455,10 +459,13 @@ impl IterMutPrograms {
         for len in 0..=(n + self.extra_len) {
             all.extend(programs(len, back));
         }
-        all.extend(nth_programs(n, back));
+        if !self.lite {
+            all.extend(nth_programs(n, back));
+        }
+        let refs: &[bool] = if self.lite { &[false] } else { &[false, true] };
         {
             for prog in all {
-                for via_ref in [false, true] {
+                for &via_ref in refs {
                     for write in [false, true] {
                         cases += 1;
                         let mut c = q.clone();
@@ -485,7 +492,7 @@ impl IterMutPrograms {
                 }
             }
         }
-        for j in 0..=(n + 1) {
+        for j in 0..=(if self.lite { 0 } else { n + 1 }) {
             let mut out = vec![];
             q.q_adaptor_lens_mut(j, &mut out);
             check_adaptors(out, n, &mut cases)?;
